@@ -32,6 +32,8 @@ class Event:
     nloop: ast.For | None = None
     domain: str | None = None  # all | filtered | aliased | None
     kind: str = ""  # default | aliased | other
+    extra: list = field(default_factory=list)  # further (test, polarity) conditions from conditional expressions in the value
+    inline_sel: tuple | None = None  # (candidate var, domain, ifs) when the value is the element of `next(<generator>, default)`
 
 
 @dataclass
@@ -43,6 +45,7 @@ class Selection:
     loop: ast.AST | None
     where: ast.AST
     srcs: list = field(default_factory=list)  # expressions the analysis has read (for the lint's unknown sites)
+    known: tuple | None = None  # (domain, order) when the candidates are not given by an expression (walk up the parents in a while loop)
 
 
 # =========================================================================== events
@@ -90,6 +93,33 @@ def collect_events(M: Model, root: str, depth: int = 0) -> tuple[list[Event], li
     return events, odd
 
 
+def expand_event(M: Model, ev: Event, depth: int = 0) -> list[Event]:
+    """Splits a store whose value is a conditional expression / `next((label for m in D if P), default)` into one event per case."""
+    if ev.value is None or depth > 4:
+        return [ev]
+    rv = M.resolve(ev.value)
+
+    def clone(value, extra=None, inline_sel=None) -> Event:
+        return Event(ev.node, ev.key, value, ev.how, extra=list(ev.extra) + (extra or []), inline_sel=inline_sel or ev.inline_sel)
+
+    if isinstance(rv, ast.IfExp):
+        return expand_event(M, clone(rv.body, [(rv.test, True)]), depth + 1) + expand_event(M, clone(rv.orelse, [(rv.test, False)]), depth + 1)
+    if isinstance(rv, ast.Call) and isinstance(rv.func, ast.Name) and rv.func.id == "next" and len(rv.args) == 2 and isinstance(rv.args[0], ast.GeneratorExp) and len(rv.args[0].generators) == 1 and ev.inline_sel is None:
+        g = rv.args[0].generators[0]
+        if isinstance(g.target, ast.Name):
+            return [clone(rv.args[0].elt, inline_sel=(g.target.id, g.iter, list(g.ifs))), *expand_event(M, clone(rv.args[1]), depth + 1)]
+    if isinstance(rv, ast.BoolOp) and isinstance(rv.op, ast.Or) and len(rv.values) == 2:
+        return [ev]
+    return [ev]
+
+
+def ev_guard(M: Model, ev: Event, relative_to=None):
+    fs = [M.guard(ev.node, relative_to=relative_to)]
+    for e, pol in ev.extra:
+        fs.append(M.formula(e, pol))
+    return f_and(fs)
+
+
 def place_event(M: Model, ev: Event) -> None:
     k = M.resolve(ev.key)
     if isinstance(k, ast.Call) and isinstance(k.func, ast.Name) and k.func.id == "str" and len(k.args) == 1:
@@ -135,7 +165,10 @@ def mentions_alias(M: Model, e: ast.AST) -> bool:
 
 
 def _is_name(e: ast.AST, name: str) -> bool:
-    return isinstance(e, ast.Name) and e.id == name
+    """`e` is the variable `name` (or, for selected candidates that are expressions, textually the expression `name`)"""
+    if isinstance(e, ast.Name):
+        return e.id == name
+    return isinstance(e, ast.expr) and not name.isidentifier() and norm(e, 400) == name
 
 
 def _split_of(e: ast.AST, name: str) -> bool:
@@ -188,10 +221,9 @@ def parse_label(M: Model, v: ast.expr, n: str):
         m = alias_of(M, a)
         if m is None:
             return None
-        if isinstance(m, ast.Name):
-            d = rest_of(r, n, m.id)
-            if d is not None:
-                return m, f"{norm(a, 40)} + {d}"
+        d = rest_of(r, n, m.id if isinstance(m, ast.Name) else norm(m, 400))
+        if d is not None:
+            return m, f"{norm(a, 40)} + {d}"
         return None
 
     if isinstance(v, ast.BinOp) and isinstance(v.op, ast.Add):
@@ -214,7 +246,7 @@ def parse_label(M: Model, v: ast.expr, n: str):
             first, tail = a.left.elts[0], a.right
         if first is not None:
             m = alias_of(M, first)
-            if isinstance(m, ast.Name) and _tail_components(tail, n, m.id):
+            if m is not None and _tail_components(tail, n, m.id if isinstance(m, ast.Name) else norm(m, 400)):
                 return m, f"'.'.join of {norm(first, 40)} and the components below the ancestor"
     m = alias_of(M, v)
     if m is not None:
@@ -229,7 +261,7 @@ def parse_label(M: Model, v: ast.expr, n: str):
 
 def _followed_by_break(M: Model, st: ast.AST, loop: ast.AST) -> bool:
     """After `st` control leaves `loop` without running another iteration (break in the same block, loop is the innermost)."""
-    inner = M.loops_around(st)
+    inner = M.loops_around(st, whiles=True)
     if not inner or inner[-1] is not loop:
         return False
     p = parent(st)
@@ -258,15 +290,46 @@ def _comp_of(M: Model, e: ast.expr):
     return None
 
 
-def find_selection(M: Model, m: str, ev: Event) -> Selection | str:
+def find_selection(M: Model, m_expr: ast.expr, ev: Event) -> Selection | str:
+    sub = M.helper_subst()
+    if not isinstance(m_expr, ast.Name):
+        # <filtered candidates>[0] / [-1]
+        if isinstance(m_expr, ast.Subscript) and isinstance(m_expr.slice, (ast.Constant, ast.UnaryOp)):
+            idx = m_expr.slice.value if isinstance(m_expr.slice, ast.Constant) else (-m_expr.slice.operand.value if isinstance(m_expr.slice.op, ast.USub) and isinstance(m_expr.slice.operand, ast.Constant) else None)
+            inner, outer_sort = m_expr.value, None
+            if isinstance(inner, ast.Call) and isinstance(inner.func, ast.Name) and inner.func.id == "sorted" and len(inner.args) == 1:
+                outer_sort, inner = inner, inner.args[0]
+            comp = _comp_of(M, inner)
+            if comp is not None and idx in (0, -1):
+                cand, D, ifs = comp
+                P = f_and([to_formula(c, sub) for c in ifs])
+                disc = "first" if idx == 0 else "last"
+                if outer_sort is not None:
+                    o = _sorted_order(M, outer_sort.keywords, False)
+                    if o is None:
+                        return f"`{norm(m_expr, 70)}`: sort order of the matching candidates not recognised"
+                    disc = "longest" if (o == "desc") == (idx == 0) else "shortest"
+                return Selection(cand, D, P, disc, None, ev.node, [m_expr])
+        # an expression computed from the variable of an enclosing loop (the local it was bound to has been substituted)
+        text = norm(m_expr, 400)
+        for L in reversed(M.loops_around(ev.node)):
+            if isinstance(L.target, ast.Name) and any(isinstance(x, ast.Name) and x.id == L.target.id for x in ast.walk(m_expr)):
+                i = L.target.id
+                D = ast.ListComp(elt=m_expr, generators=[ast.comprehension(target=ast.Name(id=i, ctx=ast.Store()), iter=M.resolve(L.iter), ifs=[], is_async=0)])
+                disc = "first" if _followed_by_break(M, ev.node, L) else "every"
+                return Selection(text, D, ev_guard(M, ev, L), disc, L, L, [c[0] for c in M.cond_list(ev.node)])
+        return f"how `{norm(m_expr, 60)}` is chosen among the aliased modules is not recognised"
+    m = m_expr.id
+    if ev.inline_sel is not None and ev.inline_sel[0] == m:
+        cand, D, ifs = ev.inline_sel
+        return Selection(cand, M.resolve(D), f_and([to_formula(M.resolve(c, frozenset({cand})), sub) for c in ifs]), "first", None, ev.node, [D, *ifs])
     bs = M.binds.get(m, [])
     if not bs:
         return f"`{m}` is not bound in draw()"
-    sub = M.helper_subst()
     # (a) loop variable of an enclosing loop
     if len(bs) == 1 and bs[0].kind == "for" and any(L is bs[0].stmt for L in M.loops_around(ev.node)):
         L = bs[0].stmt
-        P = M.guard(ev.node, relative_to=L)
+        P = ev_guard(M, ev, L)
         disc = "first" if _followed_by_break(M, ev.node, L) else "every"
         srcs = [c[0] for c in M.cond_list(ev.node)]
         return Selection(m, M.resolve(L.iter), P, disc, L, L, srcs)
@@ -302,14 +365,61 @@ def find_selection(M: Model, m: str, ev: Event) -> Selection | str:
                     continue
             if isinstance(b.value, ast.Constant):
                 continue
-            return f"`{m}` is bound to `{norm(b.value, 50)}`: selection of the aliased ancestor not recognised"
+            hits = []
+            break
         if len(hits) == 1:
             b, cand, L = hits[0]
             P = M.guard(b.stmt, relative_to=L)
             disc = "first" if _followed_by_break(M, b.stmt, L) else "last"
             srcs = [c[0] for c in M.cond_list(b.stmt)]
             return Selection(cand, M.resolve(L.iter), P, disc, L, L, srcs)
+    # (d) candidate computed from the variable of an enclosing loop:  for i in R: m = f(i); ...
+    if len(bs) == 1 and bs[0].kind == "assign":
+        for L in reversed(M.loops_around(ev.node)):
+            if any(L is x for x in M.loops_around(bs[0].stmt)) and isinstance(L.target, ast.Name):
+                i = L.target.id
+                val = M.resolve(bs[0].value)
+                if any(isinstance(x, ast.Name) and x.id == i for x in ast.walk(val)):
+                    D = ast.ListComp(elt=val, generators=[ast.comprehension(target=ast.Name(id=i, ctx=ast.Store()), iter=M.resolve(L.iter), ifs=[], is_async=0)])
+                    P = ev_guard(M, ev, L)
+                    disc = "first" if _followed_by_break(M, ev.node, L) else "every"
+                    return Selection(m, D, P, disc, L, L, [c[0] for c in M.cond_list(ev.node)] + [bs[0].value])
+                break
+    # (e) walk up the parents in a while loop:  m = n; while ...: <use m>; m = parent_of(m)
+    whiles = [w for w in M.loops_around(ev.node, whiles=True) if isinstance(w, ast.While)]
+    if len(bs) == 2 and all(b.kind == "assign" for b in bs) and whiles and ev.n is not None:
+        W = whiles[-1]
+        inside = [b for b in bs if any(x is W for x in M.loops_around(b.stmt, whiles=True))]
+        outside = [b for b in bs if b not in inside]
+        if len(inside) == 1 and len(outside) == 1 and _is_name(M.resolve(outside[0].value), ev.n) and _parent_of(inside[0].value, m):
+            cs = [c for c in M.cond_list(ev.node) if id(c[0]) != id(W.test)]
+            outer = {id(c[0]) for c in M.cond_list(W)}
+            within = {id(x) for x in ast.walk(W)}
+            P = f_and([M.formula(e, pol) for e, pol in cs if id(e) not in outer and id(e) in within] + [M.formula(e, pol) for e, pol in ev.extra])
+            disc = "first" if _followed_by_break(M, ev.node, W) else "every"
+            return Selection(m, ast.Name(id=m, ctx=ast.Load()), P, disc, W, W, [c[0] for c in cs], known=("lineage", "near"))
     return f"how `{m}` is chosen among the aliased modules is not recognised"
+
+
+def _parent_of(e: ast.expr, m: str) -> bool:
+    """`e` = the dotted name `m` without its last component: m.rpartition('.')[0] | m.rsplit('.', 1)[0] | m[:m.rindex('.')] | '.'.join(m.split('.')[:-1])"""
+    if isinstance(e, ast.Subscript) and isinstance(e.slice, ast.Constant) and e.slice.value == 0 and isinstance(e.value, ast.Call) and isinstance(e.value.func, ast.Attribute) and _is_name(e.value.func.value, m):
+        c = e.value
+        if c.func.attr == "rpartition" and len(c.args) == 1 and const_str(c.args[0]) == ".":
+            return True
+        if c.func.attr == "rsplit" and len(c.args) == 2 and const_str(c.args[0]) == "." and isinstance(c.args[1], ast.Constant) and c.args[1].value == 1:
+            return True
+    if isinstance(e, ast.Subscript) and isinstance(e.slice, ast.Slice) and e.slice.lower is None and e.slice.step is None and _is_name(e.value, m):
+        u = e.slice.upper
+        if isinstance(u, ast.Call) and isinstance(u.func, ast.Attribute) and u.func.attr in ("rindex", "rfind") and _is_name(u.func.value, m) and len(u.args) == 1 and const_str(u.args[0]) == ".":
+            return True
+    if isinstance(e, ast.Call) and isinstance(e.func, ast.Attribute) and e.func.attr == "join" and const_str(e.func.value) == "." and len(e.args) == 1:
+        a = e.args[0]
+        if isinstance(a, ast.Subscript) and isinstance(a.slice, ast.Slice) and a.slice.lower is None and a.slice.step is None and _split_of(a.value, m):
+            u = a.slice.upper
+            if isinstance(u, ast.UnaryOp) and isinstance(u.op, ast.USub) and isinstance(u.operand, ast.Constant) and u.operand.value == 1:
+                return True
+    return False
 
 
 # =========================================================================== candidate domain and order
@@ -427,6 +537,32 @@ def domain_order(M: Model, e: ast.expr, n: str, depth: int = 0) -> tuple[str | N
         d, o = domain_order(M, e.left, n, depth + 1)
         if d == "parents":
             return "lineage", {"far": "far-self-last", "near": None}.get(o or "")
+    # itertools.chain([n], <parents>)
+    if isinstance(e, ast.Call) and ((isinstance(e.func, ast.Name) and e.func.id == "chain") or (isinstance(e.func, ast.Attribute) and e.func.attr == "chain")) and len(e.args) == 2 and not e.keywords:
+        h = e.args[0]
+        if isinstance(h, (ast.List, ast.Tuple)) and len(h.elts) == 1 and _is_name(h.elts[0], n):
+            d, o = domain_order(M, e.args[1], n, depth + 1)
+            if d == "parents":
+                return "lineage", o
+        return None, None
+    # dotted prefixes by component count:  ".".join(parts[:i]) for i in range(len(parts), 0, -1)   (parts = n.split("."))
+    if isinstance(e, (ast.ListComp, ast.GeneratorExp)) and len(e.generators) == 1 and not e.generators[0].ifs and isinstance(e.generators[0].target, ast.Name):
+        g = e.generators[0]
+        i = g.target.id
+        el = e.elt
+        if isinstance(el, ast.Call) and isinstance(el.func, ast.Attribute) and el.func.attr == "join" and const_str(el.func.value) == "." and len(el.args) == 1:
+            a = el.args[0]
+            if isinstance(a, ast.Subscript) and isinstance(a.slice, ast.Slice) and a.slice.lower is None and a.slice.step is None and _is_name(a.slice.upper, i) and _split_of(a.value, n):
+                r = g.iter
+                if isinstance(r, ast.Call) and isinstance(r.func, ast.Name) and r.func.id == "reversed" and len(r.args) == 1:
+                    d, o = _prefix_range(r.args[0], n)
+                    return d, _flip(o)
+                return _prefix_range(r, n)
+    # a generator helper that yields the module and then its parents
+    if isinstance(e, ast.Call):
+        syn = _generator_as_list(M, e)
+        if syn is not None:
+            return domain_order(M, syn, n, depth + 1)
     # a list bound once and then sorted / reversed in place
     if isinstance(e, ast.Name):
         v = M.single_value(e.id)
@@ -442,6 +578,76 @@ def domain_order(M: Model, e: ast.expr, n: str, depth: int = 0) -> tuple[str | N
                     o = {"desc": "near", "asc": "far"}.get(_sorted_order(M, s.keywords, False) or "")
             return d, o
     return None, None
+
+
+def _len_parts(e: ast.AST, n: str, plus: int = 0) -> bool:
+    """len(n.split('.')) + plus"""
+    if plus and isinstance(e, ast.BinOp) and isinstance(e.op, ast.Add) and isinstance(e.right, ast.Constant) and e.right.value == plus:
+        return _len_parts(e.left, n)
+    if plus:
+        return False
+    if isinstance(e, ast.Call) and isinstance(e.func, ast.Name) and e.func.id == "len" and len(e.args) == 1 and _split_of(e.args[0], n):
+        return True
+    return _ncomp_of(e, n)
+
+
+def _prefix_range(r: ast.AST, n: str) -> tuple[str | None, str | None]:
+    if not (isinstance(r, ast.Call) and isinstance(r.func, ast.Name) and r.func.id == "range" and not r.keywords):
+        return None, None
+    a = r.args
+    const = lambda x, v: isinstance(x, ast.Constant) and x.value == v or (v < 0 and isinstance(x, ast.UnaryOp) and isinstance(x.op, ast.USub) and isinstance(x.operand, ast.Constant) and x.operand.value == -v)  # noqa: E731
+    if len(a) == 3 and _len_parts(a[0], n) and const(a[1], 0) and const(a[2], -1):
+        return "lineage", "near"
+    if len(a) == 2 and const(a[0], 1) and _len_parts(a[1], n, plus=1):
+        return "lineage", "far"
+    if len(a) == 3 and const(a[0], 1) and _len_parts(a[1], n, plus=1) and const(a[2], 1):
+        return "lineage", "far"
+    if len(a) == 2 and const(a[0], 1) and _len_parts(a[1], n):
+        return "parents", "far"
+    return None, None
+
+
+def _generator_as_list(M: Model, call: ast.Call) -> ast.expr | None:
+    """`helper(x)` where helper is a repo generator `yield p; yield from E` / `yield p; for a in E: yield a`  ->  `[x] + list(E[p:=x])`"""
+    from .common import types_of
+
+    ctx, orig = getattr(call, "_src", getattr(call, "_orig", (M.V, call)))
+    if not isinstance(orig, ast.Call):
+        return None
+    try:
+        cs, how = types_of(M.repo).callees(ctx, orig, byname_fallback=False)
+    except Exception:  # noqa: BLE001
+        return None
+    if len(cs) != 1 or how != "repo" or isinstance(cs[0].node, ast.Lambda):
+        return None
+    f = cs[0]
+    params = [p for p in f.param_names]
+    if f.cls is not None and f.outer is None and not f.is_staticmethod and params:
+        params = params[1:]
+    if len(params) != 1 or len(call.args) != 1 or call.keywords:
+        return None
+    p = params[0]
+    body = [s for s in f.node.body if not (isinstance(s, ast.Expr) and isinstance(s.value, ast.Constant))]
+    if len(body) != 2 or not (isinstance(body[0], ast.Expr) and isinstance(body[0].value, ast.Yield) and isinstance(body[0].value.value, ast.Name) and body[0].value.value.id == p):
+        return None
+    second = body[1]
+    tail = None
+    if isinstance(second, ast.Expr) and isinstance(second.value, ast.YieldFrom):
+        tail = second.value.value
+    elif isinstance(second, ast.For) and isinstance(second.target, ast.Name) and len(second.body) == 1 and isinstance(second.body[0], ast.Expr) and isinstance(second.body[0].value, ast.Yield) and isinstance(second.body[0].value.value, ast.Name) and second.body[0].value.value.id == second.target.id and not second.orelse:
+        tail = second.iter
+    if tail is None:
+        return None
+    arg = call.args[0]
+
+    class S(ast.NodeTransformer):
+        def visit_Name(self, node):  # noqa: N802
+            return arg if node.id == p else node
+
+    from .c17_model import _copy_node
+
+    tail2 = S().visit(_copy_node(tail, keep=()))
+    return ast.BinOp(left=ast.List(elts=[arg], ctx=ast.Load()), op=ast.Add(), right=tail2)
 
 
 # =========================================================================== match predicate
@@ -523,6 +729,7 @@ def labels(C) -> None:
         C.unsure(r3, "one label per node", f"the label mapping `{root}` does not start out as an empty dict filled in draw() (`{norm(bs[0].value, 60) if bs[0].value is not None else bs[0].kind}`)", bs[0].stmt)
         return
     events, odd = collect_events(M, root)
+    events = [x for ev in events for x in expand_event(M, ev)]
     for ev in events:
         place_event(M, ev)
     label_names = _dict_names(M, root)
@@ -629,12 +836,25 @@ def _rule_default(C, events: list[Event]) -> None:
     other = [ev for ev in events if ev.kind == "other" and ev.domain == "all" and ev.value is not None]
     if dflt:
         C.ok(r3, what, "modules without an aliased ancestor keep their full name", dflt[0].node)
-    elif other:
+    elif other and not _has_helper_call(C, other[0].value):
         C.bad(r3, what, f"a module without an aliased ancestor is labelled `{norm(other[0].value, 60)}`, not with its full name", other[0].node)
     elif any(ev.domain == "all" for ev in events):
-        C.bad(r3, what, "no path stores the unchanged module name as label: modules without an aliased ancestor get no label of their own", events[0].node)
+        C.unsure(r3, what, "no store of the unchanged module name as label was recognised", events[0].node)
     else:
         C.unsure(r3, what, "no label store over the nodes of the graph found", C.label_store)
+
+
+def _has_helper_call(C, e: ast.AST) -> bool:
+    for c in ast.walk(e):
+        if isinstance(c, ast.Call):
+            ctx, orig = getattr(c, "_src", (C.M.V, c))
+            try:
+                cs, how = C.types.callees(ctx, orig, byname_fallback=False)
+            except Exception:  # noqa: BLE001
+                return True
+            if cs or how in ("unresolved", "byname", "callable-param"):
+                return True
+    return False
 
 
 def _rule_aliased(C, aliased: list[Event], events: list[Event], label_names: set[str]) -> None:
@@ -659,7 +879,7 @@ def _rule_aliased(C, aliased: list[Event], events: list[Event], label_names: set
         shape_msgs.append(desc)
         # the module's own alias: `labels[n] = aliases[n]` under `n in aliases`
         if _is_name(m_expr, ev.n):
-            g = M.guard(ev.node, relative_to=ev.nloop)
+            g = ev_guard(M, ev, ev.nloop)
             kinds = {a: _self_in_keys(M, a, ev.n) for a in atoms_of(g)}
             ins = [a for a, k in kinds.items() if k]
             if ins and implies(g, atom(ins[0])):
@@ -667,7 +887,7 @@ def _rule_aliased(C, aliased: list[Event], events: list[Event], label_names: set
                 continue
             shape_unsure.append((ev, f"`{norm(ev.node, 70)}` uses the module's own alias under a condition that is not `{ev.n} in aliases`"))
             continue
-        sel = find_selection(M, m_expr.id, ev)
+        sel = find_selection(M, m_expr, ev)
         if isinstance(sel, str):
             sel_results.append(("unsure", r2, "most specific first", sel, ev.node))
             continue
@@ -726,7 +946,7 @@ def _judge_selection(C, ev: Event, sel: Selection, label_names: set[str], has_se
     r1, r2 = "C17.R1", "C17.R2"
     out = []
     n, c = ev.n, sel.cand
-    domain, order = domain_order(M, sel.D, n)
+    domain, order = sel.known if sel.known is not None else domain_order(M, sel.D, n)
     P = sel.P
     try:
         kinds = {a: classify_atom(M, a, n, c, label_names) for a in atoms_of(P)}
